@@ -21,16 +21,21 @@ Theorem C09_strict_sub_reported_refuted_dead_code_after_break :
 Proof. exact (conj w_dead_guard (conj w_dead_reach w_dead_not_reported)). Qed.
 Print Assumptions C09_strict_sub_reported_refuted_dead_code_after_break.
 
-Theorem C09_strict_sub_reported_refuted_jump_through_finally :
-  lower_ok w_fin = false /\ strict_reach w_fin 99 2 /\ ~ In 2 (reported w_fin 99).
-Proof. exact (conj w_fin_guard (conj w_fin_reach w_fin_not_reported)). Qed.
-Print Assumptions C09_strict_sub_reported_refuted_jump_through_finally.
+(* a break that leaves a try statement through its finally clause (the former known finding
+   C09-jump-through-finally): since visit_Try hands the scope after the finally block to
+   current_loop_scopes, the program is inside the guard and the definition made in the finally
+   block is reported *)
+Example C09_jump_through_finally_repaired :
+  lower_ok w_fin = true /\ strict_reach w_fin 99 2 /\ reported w_fin 99 = [1; 2; 10].
+Proof. exact w_fin_facts. Qed.
+Print Assumptions C09_jump_through_finally_repaired.
 
 (* For every function body built from assignments, uses, calls, pass, return, raise,
    break, continue, if/else, while/for with else, `while True`, suppressing and non-suppressing
    with, and try/except/else/finally, nested to any depth, that satisfies the decidable guard
-   lower_ok (nothing follows a break/continue in its block; no break/continue leaves a try
-   statement that has a finally clause): strict reaching definitions are reported. *)
+   lower_ok (nothing follows, in the same block, a break/continue or a statement ending in one in
+   the current dict): strict reaching definitions are reported -- including break/continue that
+   leave a try statement through its finally clause, and finally blocks ending in break/continue. *)
 Theorem C09_strict_sub_reported_partial : forall p u d,
   lower_ok p = true -> strict_reach p u d -> In d (reported p u).
 Proof. exact strict_sub_reported. Qed.
@@ -52,14 +57,14 @@ Print Assumptions C09_jump_free_within_lower_ok.
 (* the analysis invariant behind the theorem, for every statement list and every live entry
    state: every use reached records its binding; along every normally terminating strict path
    the abstract state stays live and covers the concrete binding of every variable; every path
-   ending in break/continue is covered by a scope holding LEAVES_LOOP (the current dict or a
-   member of current_loop_scopes) *)
+   ending in break/continue is covered by an exit scope of the loop body (the current dict when it
+   holds LEAVES_LOOP, or a member of current_loop_scopes) that does not hold LEAVES_SCOPE *)
 Theorem C09_block_invariant : forall b st, lower_ok_b b = true -> live (cur st) ->
   (forall t v u d0, upath_b b t v u -> satv v d0 (cur st) -> In (u, applyv t v d0) (u2d (visit_b b st))) /\
   (forall t, path_b b ONorm t -> live (cur (visit_b b st)) /\
      forall v d0, satv v d0 (cur st) -> satv v (applyv t v d0) (cur (visit_b b st))) /\
   (forall o t, is_jump o -> path_b b o t ->
-     exists sc, In sc (exits (visit_b b st)) /\ ll sc = true /\ ls sc = false /\
+     exists sc, In sc (exits (visit_b b st)) /\ ls sc = false /\
        forall v d0, satv v d0 (cur st) -> satv v (applyv t v d0) sc).
 Proof. exact block_invariant. Qed.
 Print Assumptions C09_block_invariant.
